@@ -36,9 +36,16 @@ def run(tier, seed, replay):
                     rep.violation("foreign-free:%s" % e[1].split(":")[0],
                                   "the free function installed through jwt_set_alloc received a block that the installed malloc function never returned "
                                   "(scenario %s, failing allocation %s)" % (e[1], e[2] or "none"), dict(scenario=e[1], k=e[2]))
+                elif line.startswith('["WF"'):
+                    e = json.loads(line)
+                    rep.violation("write-after-free:%s" % e[1].split(":")[0],
+                                  "a block freed through the installed allocator was written to afterwards (scenario %s, failing allocation %s, block of %d bytes, "
+                                  "first changed byte at offset %d)" % (e[1], e[2] or "none", e[3], e[4]), dict(scenario=e[1], k=e[2], size=e[3], offset=e[4]))
                 elif line.startswith('["PT"'):
                     e = json.loads(line)
                     rep.count("blocks_tracked_through_installed_allocator", e[1])
+                    if len(e) > 3:
+                        rep.count("freed_blocks_pattern_checked", e[3])
     total_n = sum(s["n"] for s in scen.values())
     covered = set()
     for e in evs:
